@@ -185,6 +185,14 @@ func (eval Evaluator) MultiplyByDiagMatrix(ctIn *rlwe.Ciphertext, matrix LinearT
 		keys = keys[1:]
 	}
 
+	// Without any non-zero diagonal the loop below never initializes the accumulators
+	if len(keys) == 0 {
+		c0OutQP.Q.Zero()
+		c0OutQP.P.Zero()
+		c1OutQP.Q.Zero()
+		c1OutQP.P.Zero()
+	}
+
 	for i, k := range keys {
 
 		k &= (slots - 1)
